@@ -258,15 +258,28 @@ func runC06History(seed int64, idx int, tier string) *c06Result {
 				r.P, r.HasP = rng.Intn(3), true
 			}
 		case "malformed":
-			switch rng.Intn(4) {
+			// numbers that are not decimal-integers (RFC 8216bis: digits only), on either directive,
+			// next to an otherwise valid one for the last complete or the open segment
+			bad := []string{"abc", "x", "-1", "-0", "%2B1", "+1", "1.0", "1e0", "0x1", "%201", "1%20", "", "１", "18446744073709551616", "99999999999999999999999"}
+			b := bad[rng.Intn(len(bad))]
+			m := s.open - rng.Intn(2)
+			switch rng.Intn(5) {
 			case 0:
 				q = base + "_HLS_part=1"
 			case 1:
-				q = base + "_HLS_msn=abc"
+				q = base + "_HLS_msn=" + b
 			case 2:
-				q = base + fmt.Sprintf("_HLS_msn=%d&_HLS_part=x", s.open)
+				q = base + fmt.Sprintf("_HLS_msn=%d&_HLS_part=%s", m, b)
+			case 3:
+				q = base + fmt.Sprintf("_HLS_msn=%s&_HLS_part=0", b)
 			default:
 				q = base + "_HLS_msn=-1"
+			}
+			if strings.HasSuffix(q, "_HLS_msn=") || strings.Contains(q, "_HLS_msn=&") {
+				q = base + "_HLS_part=0" // an empty _HLS_msn is no _HLS_msn: _HLS_part alone is the malformed form
+			}
+			if strings.HasSuffix(q, "_HLS_part=") {
+				q = base + "_HLS_msn=x"
 			}
 		case "hint":
 			if s.hint == "" {
